@@ -151,7 +151,7 @@ class ScoreKind(AbsInt):
         return TOP
 
     def project_call_override(self, g, node, fr):
-        if g.name == '_compute_candidates' and node.args:
+        if g is self.roles.get('candidates') and node.args:
             v = self.value(node.args[0], fr)
             tag = self._tag(v)
             if tag is not None:
@@ -163,6 +163,30 @@ class ScoreKind(AbsInt):
         if isinstance(val, Tup) and len(val.elems) == total:
             return val.elems[index]
         return TOP
+
+
+def helper_roles(ctx, fn):
+    """{'candidates': FuncInfo | None, 'empirical': FuncInfo | None}: the two module-level helpers of select_copula, found by
+    what select_copula does with them (the one that receives the candidate list and returns a pair of curve lists; the one
+    that receives X and returns four arrays), not by their private names."""
+    if 'c11.roles' in ctx.memo:
+        return ctx.memo['c11.roles']
+    prog = ctx.prog
+    roles = {'candidates': None, 'empirical': None}
+    xp = fn.params[0] if fn.params else None
+    for s_ in walk_no_nested(fn.node):
+        if isinstance(s_, ast.Assign) and isinstance(s_.value, ast.Call) and isinstance(s_.targets[0], (ast.Tuple, ast.List)):
+            g = prog.functions.get(prog.resolve(fn.module, s_.value.func) or '')
+            if g is None or g.cls is not None:
+                continue
+            n = len(s_.targets[0].elts)
+            a = s_.value.args
+            if n == 4 and a and isinstance(a[0], ast.Name) and a[0].id == xp:
+                roles['empirical'] = g
+            elif n == 2 and len(a) >= 2:
+                roles['candidates'] = g
+    ctx.memo['c11.roles'] = roles
+    return roles
 
 
 class SideKind(AbsInt):
@@ -180,9 +204,9 @@ class SideKind(AbsInt):
         return TOP
 
     def project_call_override(self, g, node, fr):
-        if g.name == '_compute_empirical':
+        if g is self.roles.get('empirical'):
             return Tup([('g', 'left'), ('c', 'left'), ('g', 'right'), ('c', 'right')])
-        if g.name == '_compute_candidates':
+        if g is self.roles.get('candidates'):
             return Tup([('clist', 'left'), ('clist', 'right')])
         return None
 
@@ -332,7 +356,8 @@ def run(ctx, rep):
         tau_set = [s for s in pre if isinstance(s, ast.Assign) and isinstance(s.targets[0], ast.Attribute) and s.targets[0].attr == 'tau'
                    and isinstance(s.targets[0].value, ast.Name) and s.targets[0].value.id == cv
                    and isinstance(s.value, ast.Attribute) and s.value.attr == 'tau' and isinstance(s.value.value, ast.Name) and s.value.value.id == fv]
-        comp = [s for s in pre if isinstance(s, ast.Expr) and isinstance(s.value, ast.Call) and call_name(s.value) == '_compute_theta'
+        from .c10 import calibrator
+        comp = [s for s in pre if isinstance(s, ast.Expr) and isinstance(s.value, ast.Call) and call_name(s.value) == calibrator(ctx).name
                 and isinstance(s.value.func.value, ast.Name) and s.value.func.value.id == cv]
         ordered = bool(made and tau_set and comp) and body.index(made[0]) < body.index(tau_set[0]) < body.index(comp[0]) < idx
         rep.check('D1.state', fn, st, ordered, 'tau := frank.tau, then _compute_theta(), then append',
@@ -348,6 +373,7 @@ def run(ctx, rep):
               construct='candidate families')
     # the returned value is a candidate selected by the scoring pipeline
     sk = ScoreKind(ctx)
+    sk.roles = helper_roles(ctx, fn)
     fr = Frame(fn, {})
     rets = [n for n in walk_no_nested(fn.node) if isinstance(n, ast.Return) and n.value is not None and not (
         early is not None and n in early.body)]
@@ -370,7 +396,7 @@ def run(ctx, rep):
     if not pol_seen:
         rep.undecided('D4.polarity', fn, fn.node.name, 'arg-extremum over scores not recognised', construct='arg-extremum')
     # helper co-ordering
-    helper = prog.functions.get('copulas.bivariate._compute_candidates')
+    helper = helper_roles(ctx, fn)['candidates']
     if helper is not None:
         lp = [n for n in walk_no_nested(helper.node) if isinstance(n, ast.For)]
         rets2 = [n for n in walk_no_nested(helper.node) if isinstance(n, ast.Return) and isinstance(n.value, ast.Tuple)]
@@ -391,6 +417,7 @@ def run(ctx, rep):
                   'the tail curves are not produced one per candidate in candidate order', construct='co-ordered curves')
     # tail layout of the compared curves
     sd = SideKind(ctx)
+    sd.roles = helper_roles(ctx, fn)
     sfr = Frame(fn, {})
     for st_ in walk_no_nested(fn.node):
         if isinstance(st_, ast.Assign):
@@ -402,13 +429,17 @@ def run(ctx, rep):
             rep.ok('D3.index', fn, fn.node.name, f'{sd.checked} curve differences compare curves of the same tail layout', construct='tail layout of differences')
     else:
         rep.undecided('D3.index', fn, fn.node.name, 'no curve difference recognised', construct='tail layout of differences')
-    ce = prog.functions.get('copulas.bivariate._compute_empirical')
+    ce = helper_roles(ctx, fn)['empirical']
     if ce is not None:
         rets_ = [n for n in walk_no_nested(ce.node) if isinstance(n, ast.Return) and isinstance(n.value, ast.Tuple)]
         names_ = [getattr(e, 'id', '') for e in rets_[0].value.elts] if rets_ else []
         sides = ['left' if (n_.lower().endswith('left') or n_ == 'L') else 'right' if (n_.lower().endswith('right') or n_ == 'R') else '?' for n_ in names_]
-        rep.check('D3.index', ce, rets_[0] if rets_ else ce.node.name, sides == ['left', 'left', 'right', 'right'],
-                  'returns (left grid, left curve, right grid, right curve)', f'the empirical tails are returned as {names_}', construct='empirical tail order')
+        if sides == ['left', 'left', 'right', 'right']:
+            rep.ok('D3.index', ce, rets_[0], 'returns (left grid, left curve, right grid, right curve)', construct='empirical tail order')
+        elif len(sides) == 4 and '?' not in sides:
+            rep.bad('D3.index', ce, rets_[0], f'the empirical tails are returned as {names_}', construct='empirical tail order')
+        else:
+            rep.undecided('D3.index', ce, rets_[0] if rets_ else ce.node.name, 'which tail each returned array belongs to cannot be told from the code', construct='empirical tail order')
     # D5 determinism
     rng = get_rng(ctx)
     clo = ctx.cg.closure([fn])
